@@ -249,3 +249,73 @@ def def_emitter_siblings(ctx):
         else:
             ok = len(writes) == 1 and "_ctx_get_or_create" in src(writes[0]) and rets and isinstance(rets[-1].value, ast.Constant) and rets[-1].value.value == ""
         ctx.check(bool(ok), "wrapper[buffered=%d]" % b, "mako/codegen.py (write_cache_decorator)", "cache wrapper with buffered=%s does not %s:\n%s" % (b, "return the cached value" if b else "write the cached value once and return ''", s.source), "wrapper %s" % ("returns value" if b else "writes once, returns ''"))
+
+
+@rule("C05.wrapper-forwarding", min_instances=3)
+def wrapper_forwarding(ctx):
+    """run-time wrappers (decorator adapters, supports_caller) forward the arguments *they* receive: a nested function's *args / **kwargs are used in its body, not shadowed by the enclosing call's"""
+    db = ctx.db
+    n = 0
+    for q, fn in db.functions_in("runtime"):
+        if q.count(".") < 2:
+            continue  # only nested functions
+        parent_q = q.rsplit(".", 1)[0]
+        if parent_q not in db.defs or not isinstance(db.defs[parent_q], ast.FunctionDef):
+            continue
+        a = fn.args
+        stars = [x.arg for x in (a.vararg, a.kwarg) if x is not None]
+        if not stars:
+            continue
+        n += 1
+        used = {x.id for x in ast.walk(fn) if isinstance(x, ast.Name) and isinstance(x.ctx, ast.Load)}
+        unused = [s for s in stars if s not in used]
+        # names of the same kind taken from the enclosing scope instead
+        outer = db.defs[parent_q]
+        outer_stars = [x.arg for x in (outer.args.vararg, outer.args.kwarg) if x is not None]
+        leaked = [s for s in outer_stars if s in used and s not in stars]
+        ctx.check(not unused and not leaked, "wrapper:" + q.split(".", 1)[1], db.where(fn),
+                  "%s receives %s but never uses %s%s: the wrapped callable is invoked with the enclosing call's arguments, so what a decorator passes to the def is silently dropped" % (q, stars, unused, (" and forwards the enclosing %s instead" % leaked) if leaked else ""),
+                  "forwards its own %s" % stars)
+    ctx.require(n >= 3, "expected >=3 nested wrappers with *args/**kwargs in runtime.py, found %d" % n)
+
+
+@rule("C05.declares-order", min_instances=1, props=["C08"])
+def declares_order(ctx):
+    """at the top of a callable, names are fetched from namespaces / the context before nested def closures are defined (their argument defaults and decorators are evaluated at definition time), in an order that does not depend on the hash seed"""
+    db = ctx.db
+    S = sk.get(db)
+    fn = S.model.methods["write_variable_declares"]
+    loops = [n for n in walk_func(fn) if isinstance(n, ast.For) and S.model.node_emits(n)]
+    # classify what each emitting loop can emit
+    found = 0
+    order = []
+    for lp in loops:
+        t = src(lp)
+        closures = "self.write_inline_def(" in t or "self.write_def_decl(" in t
+        lookups = "context.get(" in t or "context[" in t
+        if not (closures or lookups):
+            continue
+        found += 1
+        order.append((lp, closures, lookups))
+        if closures and lookups:
+            it = lp.iter
+            ok = False
+            why = "iterates `%s`" % src(it)
+            if isinstance(it, ast.Call) and dotted(it.func) == "sorted":
+                key = [k.value for k in it.keywords if k.arg == "key"]
+                if key and isinstance(key[0], ast.Lambda) and isinstance(key[0].body, ast.Tuple) and key[0].body.elts:
+                    first = key[0].body.elts[0]
+                    # (name in <table of defs>, name): look-ups (False) sort before closures (True)
+                    if isinstance(first, ast.Compare) and isinstance(first.ops[0], ast.In):
+                        ok = True
+                    elif isinstance(first, ast.Compare) and isinstance(first.ops[0], ast.NotIn):
+                        why = "the sort key places closures first"
+                elif not key:
+                    why = "sorted() without a key interleaves closures and look-ups alphabetically"
+            ctx.check(ok, "single-loop", db.where(lp), "one loop emits both context look-ups and nested def closures and %s: a nested def whose default names a context variable that sorts after the def's own name is defined first -> UnboundLocalError" % why, "look-ups sort before closures")
+    if found >= 2:
+        # separate loops: every look-up loop precedes every closure loop
+        first_closure = min([lp.lineno for lp, c, l in order if c] or [10 ** 9])
+        last_lookup = max([lp.lineno for lp, c, l in order if l] or [0])
+        ctx.check(last_lookup < first_closure or any(c and l for _, c, l in order), "loop-order", db.where(fn), "nested def closures are emitted before the context look-ups", "look-up loop precedes closure loop")
+    ctx.require(found >= 1, "write_variable_declares: emitting loop not found")
